@@ -4,6 +4,7 @@ import (
 	"bufio"
 	"encoding/binary"
 	"encoding/json"
+	"errors"
 	"fmt"
 	"math"
 	"os"
@@ -11,6 +12,7 @@ import (
 	"path/filepath"
 	"runtime/debug"
 	"sort"
+	"strings"
 	"sync"
 	"time"
 
@@ -252,9 +254,81 @@ func c13Scenarios(c *fw.Ctx) []*Scenario {
 		}
 		return []func(){body(0), body(1)}, judge
 	}}
-	b2, b3 := 3, 2
+	// S5: the first session comes from Create (the file does not exist yet); a second session tries to Open it.
+	// The opener either finds no file at all, or - because Create holds the lock until Close - the complete synced file.
+	creator := &Scenario{Name: "S5-create-vs-open", Bound: -1, Make: func() ([]func(), func(*vrt.Sched) (string, string, string)) {
+		vrt.SetPagesize(16)
+		os.Remove(path)
+		l := c13Layout()
+		var cerr, oerr string
+		var seen float64 = -1
+		type iv struct{ openRet, closeCall int }
+		ivs := make([]iv, 2)
+		create := func() {
+			db, err := wt.Create(path, archList(l.Archs), wt.Sum, 1)
+			if err != nil {
+				cerr = err.Error()
+				return
+			}
+			ivs[0].openRet = vrt.Step()
+			db.UpdatePointForArchive(0, wt.Timestamp(c13Now), 5, wt.Timestamp(c13Now))
+			if err := db.Sync(); err != nil {
+				cerr = err.Error()
+			}
+			vrt.Point("hold", nil) // the synced file is on disk and the creating handle is still open
+			ivs[0].closeCall = vrt.Step()
+			db.Close()
+		}
+		oerrStep := 0
+		open := func() {
+			db, err := wt.Open(path)
+			if err != nil {
+				hmu.Lock()
+				oerr = err.Error()
+				oerrStep = vrt.Step()
+				hmu.Unlock()
+				return
+			}
+			ivs[1].openRet = vrt.Step()
+			v, err := readCounter(db)
+			hmu.Lock()
+			if err != nil {
+				oerr = "read: " + err.Error()
+			} else {
+				seen = v
+			}
+			hmu.Unlock()
+			ivs[1].closeCall = vrt.Step()
+			db.Close()
+		}
+		judge := func(s *vrt.Sched) (string, string, string) {
+			if s.Deadlock || len(s.Panics) > 0 || s.Diverged != "" {
+				return "", "", "aborted"
+			}
+			if cerr != "" {
+				return "C13/S5/create-failed", cerr, "error"
+			}
+			switch {
+			case oerr != "" && os.IsNotExist(errors.Unwrap(fmt.Errorf("%w", errNotExistIf(oerr)))):
+				return "", "", "opener-found-no-file"
+			case oerr != "" && (ivs[0].openRet == 0 || oerrStep <= ivs[0].openRet):
+				// the opener met the file between its creation and the creator's lock (Create had not returned yet):
+				// no handle was held at that moment, the opener got an error and holds nothing - not a property matter
+				return "", "", "opener-failed-before-create-returned"
+			case oerr != "":
+				return "C13/S5/opener-did-not-wait-for-creating-handle", fmt.Sprintf("Create returned at step %d and its handle was closed at step %d; in between (step %d) another Open of the path returned %q instead of waiting", ivs[0].openRet, ivs[0].closeCall, oerrStep, oerr), "partial"
+			case seen != 5:
+				return "C13/S5/opener-saw-unsynced-state", fmt.Sprintf("the opener read %v, the creating session synced 5", seen), "stale"
+			case ivs[1].openRet < ivs[0].closeCall:
+				return "C13/S5/opened-while-creating-handle-open", fmt.Sprintf("opener's Open returned at %d, the creating handle was closed at %d", ivs[1].openRet, ivs[0].closeCall), "overlap"
+			}
+			return "", "", "opener-saw-complete-file"
+		}
+		return []func(){create, open}, judge
+	}}
+	b2, b3 := -1, 2 // two-thread scenarios: every interleaving; three threads: preemption bound
 	if c.Thorough() {
-		b2, b3 = -1, 3
+		b2, b3 = -1, 4
 	}
 	return []*Scenario{
 		incr(2, 16, b2, "S1-two-writers-page16"),
@@ -264,6 +338,7 @@ func c13Scenarios(c *fw.Ctx) []*Scenario {
 		snapshot(b2, false, "S2-writer-reader"),
 		snapshot(b3-1, true, "S2-two-writers-reader"),
 		lifetime,
+		creator,
 	}
 }
 
@@ -487,6 +562,9 @@ func racePassChild(args []string) {
 		if len(sc.Name) > 2 && sc.Name[:2] == "F-" {
 			reps = 200 // cheap: shared-handle fetches
 		}
+		if strings.Contains(sc.Name, "-bad-") || strings.Contains(sc.Name, "-oor") {
+			reps = 300 // failing requests return at once: many repetitions to overlap them
+		}
 		for rep := 0; rep < reps; rep++ {
 			bodies, judge := sc.Make()
 			var wg sync.WaitGroup
@@ -504,4 +582,12 @@ func racePassChild(args []string) {
 		}
 	}
 	fmt.Println("racepass done")
+}
+
+// errNotExistIf maps the text of a not-exist error back to os.ErrNotExist (the scenario records error texts only).
+func errNotExistIf(text string) error {
+	if strings.Contains(text, "no such file or directory") {
+		return os.ErrNotExist
+	}
+	return errors.New(text)
 }
